@@ -1,6 +1,7 @@
 import CasbinModel.Lemmas.Csv
 import CasbinModel.Lemmas.Mirror
 import CasbinModel.Lemmas.MirrorBatch
+import CasbinModel.Lemmas.SaveMirror
 /-!
 # C09 — Stored policy and in-memory policy stay identical
 
@@ -727,10 +728,84 @@ theorem reload_after_history (e : Enforcer) (h : MemOk e) (ops : List SOp) :
   rw [records_memory _ hm.1]
   exact hm.2.2.2 sec pt hex
 
+/-! ### save_policy -/
+
+/-- the shape `save_policy` relies on: a definition is filed under the first character of its key (`p2` under `p`,
+`g3` under `g`), and keys are distinct within a section -/
+structure Canon (s : Store) : Prop where
+  ptag : ∀ d ∈ s.p, tagOf d = "p"
+  gtag : ∀ d ∈ s.g, tagOf d = "g"
+  pkeys : (s.p.map (·.key)).Nodup
+  gkeys : (s.g.map (·.key)).Nodup
+
+/-- **`save_policy` into a memory adapter establishes the mirror**: afterwards the adapter holds, per policy type,
+exactly the stored rules in stored order — so (with `reload_is_identity`) a following `load_policy` changes nothing -/
+theorem save_establishes_mirror (e : Enforcer) (hk : e.adapter.kind = .memory) (hp : e.adapter.plan = [])
+    (hf : e.adapter.filtered = false) (hc : Canon e.store) (hw : e.store.WF) :
+    Mirror e.savePolicy.1 := by
+  have hsave : e.adapter.save e.store =
+      ({ e.adapter with lines := ((e.store.p ++ e.store.g).flatMap (fun d =>
+          d.policy.map (fun r => (String.ofList (d.key.toList.take 1)) :: d.key :: r))).foldl insertMove [] }, some ()) := by
+    simp only [AdapterSt.save, AdapterSt.nextFault, hp, hk, adapter_plan_nil e.adapter hp]
+  have hstore : e.savePolicy.1.store = e.store ∧ e.savePolicy.1.adapter.lines =
+      ((e.store.p ++ e.store.g).flatMap (fun d =>
+          d.policy.map (fun r => (String.ofList (d.key.toList.take 1)) :: d.key :: r))).foldl insertMove [] := by
+    unfold Enforcer.savePolicy
+    simp only [hf, Bool.false_eq_true, if_false, hsave]
+    rw [(emit_fields _ _).1, (emit_fields _ _).2]
+    exact ⟨rfl, rfl⟩
+  intro sec pt hex
+  rw [hstore.1] at hex ⊢
+  rw [hstore.2]
+  show proj sec pt _ = _
+  -- the lines are the tagged records of all definitions
+  have hT : (e.store.p ++ e.store.g).flatMap (fun d =>
+        d.policy.map (fun r => (String.ofList (d.key.toList.take 1)) :: d.key :: r)) =
+      ((e.store.p ++ e.store.g).flatMap (fun d => d.policy.map (fun r => (tagOf d, d.key, r)))).map
+        (fun t => tag t.1 t.2.1 t.2.2) := by
+    rw [List.map_flatMap]
+    congr 1
+    funext d
+    rw [List.map_map]
+    rfl
+  rw [hT, proj_foldl_insertMove, recsFor_flatMap]
+  have hfun : (fun d : PolDef => recsFor sec pt (d.policy.map (fun r => (tagOf d, d.key, r)))) =
+      (fun d => if tagOf d = sec ∧ d.key = pt then d.policy else []) := by
+    funext d; exact recsFor_const sec pt (tagOf d) d.key d.policy
+  rw [hfun, List.flatMap_append]
+  have hproj0 : proj sec pt [] = [] := by simp [proj, memRecords, recsFor]
+  rw [hproj0]
+  -- the section is `p` or `g`
+  have hsec : sec = "p" ∨ sec = "g" := by
+    by_cases h1 : sec = "p"
+    · exact Or.inl h1
+    · by_cases h2 : sec = "g"
+      · exact Or.inr h2
+      · exfalso
+        simp [Store.find, Store.sec, h1, h2] at hex
+  have hget : (e.store.p.flatMap (fun d => if tagOf d = sec ∧ d.key = pt then d.policy else [])) ++
+      (e.store.g.flatMap (fun d => if tagOf d = sec ∧ d.key = pt then d.policy else [])) = e.store.getPolicy sec pt := by
+    rcases hsec with rfl | rfl
+    · rw [flatMap_unique e.store.p "p" pt hc.ptag hc.pkeys,
+        flatMap_other e.store.g "p" pt (fun d hd => by rw [hc.gtag d hd]; decide)]
+      simp [Store.getPolicy, Store.find, Store.sec]
+      cases List.find? (fun x => decide (x.key = pt)) e.store.p <;> rfl
+    · rw [flatMap_other e.store.p "g" pt (fun d hd => by rw [hc.ptag d hd]; decide),
+        flatMap_unique e.store.g "g" pt hc.gtag hc.gkeys]
+      simp [Store.getPolicy, Store.find, Store.sec]
+      cases List.find? (fun x => decide (x.key = pt)) e.store.g <;> rfl
+  rw [hget, foldl_insertMove_nodup _ [] (hw sec pt) (by simp)]
+  simp
+
 /-! ### Non-vacuity -/
 example : SafeField "a,b".toList := ⟨by decide, by decide, by decide, by decide⟩
 example : SafeField "d é".toList := ⟨by decide, by decide, by decide, by decide⟩
 example : parseCsvLine (renderLine [','] "p".toList ["alice".toList, "a,b".toList, "read".toList]) =
     some ["p".toList, "alice".toList, "a,b".toList, "read".toList] := by decide +kernel
+
+/-- the premise of `save_establishes_mirror` holds of the usual shape of a model (p, p2 / g, g2) -/
+example : Canon ⟨[{ key := "p", tokens := [], arity := 0, policy := [] }, { key := "p2", tokens := [], arity := 0, policy := [] }],
+    [{ key := "g", tokens := [], arity := 2, policy := [] }, { key := "g2", tokens := [], arity := 3, policy := [] }]⟩ :=
+  ⟨by decide, by decide, by decide, by decide⟩
 
 end Casbin.C09
